@@ -426,8 +426,20 @@ def _loop_run(func, case):
     logs = []
     outcomes = []
     fired = {'cancel': 0, 'timeout': 0, 'drop': 0}
+    ignored_exit = [0]
+
+    def on_loop_exception(loop, ctx):
+        # asyncio reports an async generator that answers its close request by yielding again here
+        # ('async generator ignored GeneratorExit'): such a body is outside the property
+        if 'ignored GeneratorExit' in str(ctx.get('exception')) or 'ignored GeneratorExit' in str(ctx.get('message')):
+            ignored_exit[0] += 1
+
+    loop_ref = [None]
 
     def factory(loop):
+        loop_ref[0] = loop
+        loop.set_exception_handler(on_loop_exception)
+
         async def io(lat, tag):
             fut = loop.create_future()
             h = loop.call_later(lat, lambda: (not fut.done()) and fut.set_result(tag))
@@ -489,6 +501,8 @@ def _loop_run(func, case):
                 out.append(['cancelled'])
                 raise
             except BaseException as e:      # noqa
+                if 'ignored GeneratorExit' in str(e):
+                    ignored_exit[0] += 1
                 out.append(_norm_exc(e))
 
         async def main():
@@ -518,7 +532,8 @@ def _loop_run(func, case):
         end = ['loop_exc'] + _norm_exc(e)
     gc.collect()
     return {'trace': [outcomes, end[:2]], 'log': [list(l) for l in logs], 'state': None,
-            'sim_time': end[2] if end[0] == 'end' else 0.0, 'fired': fired}
+            'sim_time': end[2] if end[0] == 'end' else 0.0, 'fired': fired,
+            'ignored_exit': ignored_exit[0] + (loop_ref[0].ignored_close if loop_ref[0] is not None else 0)}
 
 
 def _conforms_ret(ann, v):
@@ -576,6 +591,13 @@ def execute(case):
         probes['cancel_injected'] = a['fired']['cancel']
         probes['timeout_fired'] = a['fired']['timeout']
         probes['drop_finalise'] = a['fired']['drop']
+        if a.get('ignored_exit'):
+            # the *undecorated* original answered a close request (finalisation / aclose / loop shutdown) by yielding again:
+            # a body that "yields while handling GeneratorExit", which the property excludes. What such a generator does
+            # next is decided by when the interpreter finalises it a second time, not by beartype.
+            probes['excluded_ignores_close'] = 1
+            return {'digest': kernel.stable_hash([src, case.get('ops'), case.get('scenario')]), 'nontrivial': False, 'probes': probes,
+                    'stats': {'excluded_body': 1}, 'sim_time': a.get('sim_time', 0.0) or 0.0, 'violation': None}
     if any(isinstance(e, (list, tuple)) and e and e[0] == 'cleanup' for l in ([a['log']] if case['driver'] == 'protocol' else a['log'])
            for e in (l if case['driver'] == 'protocol' else l)):
         probes['cleanup_ran'] = 1
